@@ -75,3 +75,48 @@ Proof. exact tie_validate_out. Qed.
 Theorem C15_source_tie_validate_sites :
   In "_run"%string GCliVd.validate_call_sites /\ In "_multiround"%string GCliVd.validate_call_sites.
 Proof. exact tie_validate_sites. Qed.
+
+(* ---- the command's outputs through the estimator model (Proofs/CliRun.v) ----
+   plan_ops gives the extracted plan a denotation as estimator operations (constructor; one fit per file in
+   name order with default labels; set_merge; refine on all rows; recluster with the recorded shuffles);
+   cli_run aborts at the first failing call.  The command IS the API script api_ops (closed form of the
+   plan), and the estimator theorems hold of what it writes: the reported clusters partition the rows of
+   all files numbered in name order, every reported centroid is the majority vote of its members' rows,
+   every cluster of two or more members meets the --set-merge criterion at --threshold or the
+   --set-refine-merge criterion at threshold + change; and for builtin names and non-empty files the
+   command does not abort.  CliRun.Demo.cli_partition_without_perms_ok_refuted: a shuffle that is not a
+   permutation loses rows, so that hypothesis on the recorded shuffles is needed. *)
+From BB Require Import Model.Birch Proofs.CliRun.
+From Coq Require Import List Permutation.
+Theorem C15_run_is_api_script : forall fexp o files perms st,
+  cli_run fexp o files perms = Some st ->
+  exists cfg0, api_cfg0 fexp o = Some cfg0 /\ plan_config fexp o <> None /\
+    st = run fexp cfg0 (api_ops fexp o files perms).
+Proof. exact cli_run_is_api_run. Qed.
+Theorem C15_run_partition : forall fexp nf o files perms st,
+  2 <= ro_bf o -> files_ok nf files -> cli_perms_ok fexp o files perms ->
+  cli_run fexp o files perms = Some st ->
+  Permutation (concat (clusters st)) (zseq 0 (length (concat files))) /\
+  NoDup (concat (clusters st)) /\ nfit st = zlen (concat files).
+Proof. exact cli_partition. Qed.
+Theorem C15_run_centroids_exact : forall fexp nf o files perms st,
+  2 <= ro_bf o -> files_ok nf files -> cli_perms_ok fexp o files perms ->
+  cli_run fexp o files perms = Some st ->
+  length (centroids st) = length (clusters st) /\
+  forall k ids, nth_error (clusters st) k = Some ids ->
+    ids <> nil /\
+    (zlen ids < 2 ^ 53 ->
+     nth_error (centroids st) k =
+       Some (map (fun c => zlen ids <=? 2 * c) (colsum nf (map (file_data files) ids)))).
+Proof. exact cli_centroids_exact. Qed.
+Theorem C15_run_bound : forall fexp nf o files perms st,
+  2 <= ro_bf o -> files_ok nf files -> cli_perms_ok fexp o files perms ->
+  cli_run fexp o files perms = Some st ->
+  Forall (fun s => sn s <= 1 \/ exists c t, cli_pair_ok fexp o (c, t) /\ BirchBound.meets c t s)
+         (sorted_leaves st).
+Proof. exact cli_bound_pairs. Qed.
+Theorem C15_run_total : forall fexp nf o files perms,
+  ro_merge o <> NUnknown -> ro_refine_merge o <> NUnknown -> 2 <= ro_bf o -> 0 <= ro_refine_num o ->
+  files_ok nf files -> files <> nil -> Forall (fun f : list fpv => f <> nil) files ->
+  cli_perms_ok fexp o files perms -> exists st, cli_run fexp o files perms = Some st.
+Proof. exact cli_run_total. Qed.
